@@ -1421,6 +1421,17 @@ def r_block_mgr(e, R):
                              and g.on_branch(n, t, "T") for t in g.nodes) for n in nodes)
                 R.check(ok, "R-BLOCK-MGR", f"{f.short}: {norm(c)} dominated by the readiness test", f.short, norm(c),
                         "blocking recv() in the manager not dominated by a readiness test", e.loc(f, c))
+                # readiness only promises the first byte.  A message larger than the pipe buffer is read in several chunks; if
+                # its writer dies in between, end-of-file is the only thing that can end the read -- and it never comes when
+                # other live processes (the parent itself, the other workers) hold the same write end.
+                conns = {o for o in recv if o[0] == "obj"}
+                shared = bool(conns) and _write_end_shared(e, conns)
+                bounded = e.is_nonblocking(c)
+                R.check(not shared or bounded, "R-BLOCK-MGR", f"{f.short}: {norm(c)} cannot be left waiting for the rest of a message whose writer died",
+                        f.short, "blocking read of a multi-chunk message on a pipe whose write end is shared",
+                        "the manager reads a whole result with a blocking recv(); a worker that is killed after writing the length header and part of a large "
+                        "result leaves it waiting for the remaining bytes forever, because the parent and the other workers keep the write end of the same pipe "
+                        "open (no EOF): the death is never detected, the pool is never flagged broken and every pending future hangs", e.loc(f, c))
             elif fn.attr == "put" and recv & a.callq:
                 n_sites += 1
                 if e.is_nonblocking(c):
@@ -1462,6 +1473,22 @@ def r_block_mgr(e, R):
                 R.fail("R-BLOCK-MGR", f.short, norm(c), "manager blocks on a future", e.loc(f, c))
     if n_sites < 9:
         raise AnalysisError(f"R-BLOCK-MGR: {n_sites} blocking sites found in the manager, floor is 9")
+
+
+def _write_end_shared(e, reader_objs):
+    """Is the write end of the pipe read through `reader_objs` held by the workers *and* by the parent?  True when the reader
+    is a field of a queue object that is both kept in a field of the executor (the parent keeps both ends) and bound to a
+    parameter of the worker main (every worker holds the write end too)."""
+    a = e.anchors
+    for qo in a.resq:
+        flds = a.fields_of({qo})
+        mine = any(reader_objs & set(v) for v in flds.values()) or any(o[1].startswith(f"field:{qo[1]}.") for o in reader_objs if isinstance(o[1], str))
+        if not mine:
+            continue
+        shipped = any({x for x in e.pt.get(("L", a.worker_main.qualname, p)) if x[0] == "obj"} & {qo} for p in a.worker_main.params)
+        if shipped:
+            return True
+    return False
 
 
 def _enclosing_loop(e, node):
